@@ -49,14 +49,124 @@ def lit(t):
     return t
 
 
+class Poly:
+    """integer polynomial over atom terms, kept in canonical sum-of-monomials form.  Monomials of degree >= 2
+    are rendered as opaque integer constants (one per distinct commutative monomial): every query stays in
+    linear arithmetic + UF ("products as atoms"); unsat answers are valid for the real products a fortiori."""
+    _atoms = {}      # key -> z3 term
+    _monos = {}      # monomial key tuple -> z3 Int const
+
+    def __init__(self, terms=None):
+        self.terms = {m: c for m, c in (terms or {}).items() if c != 0}
+
+    @staticmethod
+    def const(v):
+        return Poly({(): int(v)})
+
+    @staticmethod
+    def atom(t):
+        k = t.sexpr()
+        Poly._atoms[k] = t
+        return Poly({(k,): 1})
+
+    @staticmethod
+    def lift(x):
+        if isinstance(x, Poly):
+            return x
+        if isinstance(x, SymZ):
+            x = x.t
+        if isinstance(x, bool):
+            return Poly.const(int(x))
+        if isinstance(x, int):
+            return Poly.const(x)
+        if z3.is_int_value(x):
+            return Poly.const(x.as_long())
+        if z3.is_app(x):
+            k = x.decl().kind()
+            ch = x.children()
+            if k == z3.Z3_OP_ADD:
+                r_ = Poly()
+                for c in ch:
+                    r_ = r_ + Poly.lift(c)
+                return r_
+            if k == z3.Z3_OP_SUB and len(ch) == 2:
+                return Poly.lift(ch[0]) - Poly.lift(ch[1])
+            if k == z3.Z3_OP_UMINUS:
+                return -Poly.lift(ch[0])
+            if k == z3.Z3_OP_MUL:
+                r_ = Poly.const(1)
+                for c in ch:
+                    r_ = r_ * Poly.lift(c)
+                return r_
+        return Poly.atom(x)
+
+    def __add__(self, o):
+        o = Poly.lift(o)
+        t = dict(self.terms)
+        for m, c in o.terms.items():
+            t[m] = t.get(m, 0) + c
+        return Poly(t)
+
+    __radd__ = __add__
+
+    def __neg__(self):
+        return Poly({m: -c for m, c in self.terms.items()})
+
+    def __sub__(self, o):
+        return self + (-Poly.lift(o))
+
+    def __rsub__(self, o):
+        return Poly.lift(o) - self
+
+    def __mul__(self, o):
+        o = Poly.lift(o)
+        t = {}
+        for m1, c1 in self.terms.items():
+            for m2, c2 in o.terms.items():
+                m = tuple(sorted(m1 + m2))
+                t[m] = t.get(m, 0) + c1 * c2
+        return Poly(t)
+
+    __rmul__ = __mul__
+
+    def z3(self):
+        out = z3.IntVal(0)
+        parts = []
+        for m, c in sorted(self.terms.items()):
+            if len(m) == 0:
+                parts.append(z3.IntVal(c))
+                continue
+            if len(m) == 1:
+                a = Poly._atoms[m[0]]
+            else:
+                if m not in Poly._monos:
+                    Poly._monos[m] = z3.Int("mono!%d" % len(Poly._monos))
+                a = Poly._monos[m]
+            parts.append(a if c == 1 else c * a)
+        if not parts:
+            return z3.IntVal(0)
+        return parts[0] if len(parts) == 1 else z3.Sum(parts)
+
+    def __repr__(self):
+        return "Poly(%s)" % core._short(self.z3(), 80)
+
+
 class MP:
     """model point"""
     __symx_shadow__ = False
 
     def __init__(self, group, k, t):
         self.group = group
-        self.k = lit(k)
-        self.t = lit(t)
+        self.kp = Poly.lift(k)
+        self.tp = Poly.lift(t)
+
+    @property
+    def k(self):
+        return self.kp.z3()
+
+    @property
+    def t(self):
+        return self.tp.z3()
 
     def __repr__(self):
         return "MP(%s, %s, %s)" % (self.group, core._short(self.k, 60), core._short(self.t, 30))
@@ -71,12 +181,16 @@ class MP:
 
 class GT:
     def __init__(self, e):
-        self.e = lit(e)
+        self.ep = Poly.lift(e)
+
+    @property
+    def e(self):
+        return self.ep.z3()
 
     def __mul__(self, o):
         if not isinstance(o, GT):
             raise Unsupported("GT * %r" % (type(o),))
-        return GT(self.e + o.e)
+        return GT(self.ep + o.ep)
 
     __rmul__ = __mul__
     __imul__ = __mul__
@@ -84,7 +198,7 @@ class GT:
     def __eq__(self, o):
         if not isinstance(o, GT):
             raise TypeError("Expected an FQP object, but got object of type %s" % type(o))
-        return SymBool((self.e - o.e) % R_ORDER == 0)
+        return SymBool((self.ep - o.ep).z3() % R_ORDER == 0)
 
     def __ne__(self, o):
         return ~self.__eq__(o)
@@ -112,16 +226,16 @@ class World:
     # ---- group
     def add(self, a, b):
         self._chk(a, b)
-        return MP(a.group, a.k + b.k, a.t + b.t)
+        return MP(a.group, a.kp + b.kp, a.tp + b.tp)
 
     def neg(self, a):
-        return MP(a.group, -a.k, -a.t)
+        return MP(a.group, -a.kp, -a.tp)
 
     def multiply(self, a, n):
         n = SymZ.lift(n)
         if n is None:
             raise Unsupported("multiply by %r" % (n,))
-        return MP(a.group, a.k * n.t, a.t * n.t)
+        return MP(a.group, a.kp * Poly.lift(n.t), a.tp * Poly.lift(n.t))
 
     def is_inf(self, a):
         return SymBool(z3.And(a.k % self.r == 0, a.t == 0))
@@ -138,7 +252,7 @@ class World:
         if not isinstance(Q, MP) or not isinstance(P, MP) or Q.group != "G2" or P.group != "G1":
             raise Unsupported("model: pairing argument groups %r %r" % (Q, P))
         self.pairings.append((Q, P, final_exponentiate))
-        return GT(Q.k * P.k)
+        return GT(Q.kp * P.kp)
 
     def final_exponentiate(self, g):
         self.final_exp_calls += 1
@@ -152,13 +266,18 @@ class World:
         enc = F("ENC%d" % g, I, I, SEQ)
         dk, dt, valid = F("DK%d" % g, SEQ, I), F("DT%d" % g, SEQ, I), F("VALID%d" % g, SEQ, B)
         c = core.cur()
-        j = z3.Int(c.fresh_name("j"))
-        kc = z3.Int(c.fresh_name("kc"))
-        c.add_fact(z3.And(kc == P.k + self.r * j, kc >= 0, kc < self.r))
+        g0, _ = c.prove(z3.And(P.k >= 0, P.k < self.r), timeout_ms=5000)
+        if g0 == "unsat":
+            kc, kexpr = P.k, P.kp           # already the canonical representative
+        else:
+            j = z3.Int(c.fresh_name("j"))
+            kc = z3.Int(c.fresh_name("kc"))
+            kexpr = P.kp + Poly.atom(j) * self.r
+            c.add_fact(z3.And(kc == kexpr.z3(), kc >= 0, kc < self.r))
         s = enc(kc, P.t)
         c.add_fact(z3.Length(s) == n)
         c.add_fact(z3.And(dk(s) == kc, dt(s) == P.t, valid(s)))
-        self.encodes.append((g, P, s, P.k + self.r * j))
+        self.encodes.append((g, P, s, kexpr))
         return SymBytes(s, n)
 
     def G1_to_pubkey(self, P):
@@ -179,7 +298,7 @@ class World:
         for (g2, P, s2, kexpr) in self.encodes:
             if g2 == g and s2.eq(s):
                 # DEC(ENC(P)) = P: returned with the exponent as the polynomial k + r*j (= k mod r)
-                return MP("G1" if g == 1 else "G2", kexpr, P.t)
+                return MP("G1" if g == 1 else "G2", kexpr, P.tp)
         if not SymBool(valid(s)):
             raise ValueError("model: not a canonical encoding of a curve point")
         c.add_fact(z3.And(dk(s) >= 0, dk(s) < self.r, enc(dk(s), dt(s)) == s))
